@@ -6,6 +6,16 @@ var _ = gosym.Options{}
 
 var props = []PropSpec{
 	{
+		ID: "C18", Level: "other",
+		Explanation: "the analyzer's own member tables (ast.<Type>.Fields) are executed in the engine with a selector over (type kind, member); each offered member is looked up on runtime values of both value libraries and called with arguments of the advertised types whose payloads (ints, floats, bools, indices) are unconstrained solver variables; index-taking operations are compared with the wrap/interrupt law on term level",
+		Harnesses: []HarnessSpec{
+			{Pkg: "homescript", Func: "VerifHarness_Members", Quick: map[string]int{}, Require: []string{"looked-up", "vm-called", "tree-called"},
+				What: "(type kind x member) product exhaustively: member exists in both runtimes, call with advertised argument types does not panic, result kind is the advertised one"},
+			{Pkg: "homescript", Func: "VerifHarness_IndexLaw", Quick: map[string]int{"N": 3}, Thor: map[string]int{"N": 5}, Require: []string{"returned"},
+				What: "l[i], l.remove(i), l.insert(i, e) on lists of 0..N symbolic elements with an unconstrained 64-bit index, both value libraries: wrapped element or interrupt, never a crash or another element"},
+		},
+	},
+	{
 		ID: "C11", Level: "other",
 		Explanation: "bounded symbolic execution of the whole pipeline on a generated nesting family (every nesting of the 11 construct kinds up to depth D around each of the 5 exits), with the exit condition and the failing index as solver variables; VM and tree interpreter outputs/outcomes are compared with a definitional reference interpreter over the parsed tree",
 		Harnesses: []HarnessSpec{
